@@ -68,13 +68,260 @@ def source_repo():
             os.environ["VCHECK_NO_RENAME"] = old
 
 
+# --------------------------------------------------------------------------
+# the evaluator: vcheck.symx's term interpreter extended with the idioms the separation functions may be written in
+# --------------------------------------------------------------------------
+#   * functions as values: a numpy / math / package function named without being called (an entry of a module-level dispatch table
+#     such as {"deg": np.deg2rad}, a local `convert = table.get(units)`) is a function reference; calling the variable that holds it
+#     is the call of that function (in-place `out` operands included);
+#   * *args of an inlined package helper: the extra positional arguments are bound to a list; an element updated in place through
+#     the loop variable (`for a in arrays: np.deg2rad(a, a)`) is updated in the caller's variable, as for a named parameter;
+#   * index arrays: np.nonzero(cond) / np.flatnonzero(cond) / cond.nonzero() select the same elements, in the same order, as the
+#     boolean mask (like single-argument np.where);
+#   * np.stack / np.vstack of per-point arrays along the first axis is the sequence of components (like np.array([x, y, z]));
+#   * np.sum(components, axis=0) / components.sum(axis=0) is the sum of the components; np.linalg.norm(components, axis=0) its root;
+#   * `mask.all()` / `np.all(mask)` as a test: "this element satisfies the condition and so do all the others", the second part an
+#     unknown of its own (a whole-array fast path is taken for some inputs and not for others; see drop_shortcuts).
+
+class FnRef(symx.Opaque):
+    """a function named without being called; `what` is its fully qualified name"""
+
+
+_NOT_FUNCS = ("numpy.pi", "math.pi", "numpy.e", "math.e", "numpy.inf", "math.inf", "numpy.nan", "math.nan", "numpy.newaxis")
+
+
+class SepEnv(symx.Env):
+    # ---- names ---------------------------------------------------------------------------------------------------------------
+    def _shadowed(self, head):
+        return head in self.vars or head in self.pins or head in self.flags
+
+    def ev(self, e, stmt_level=False):
+        if isinstance(e, ast.Name) and not self._shadowed(e.id):
+            v = symx.Env.ev(self, e, stmt_level)
+            if type(v) is symx.Opaque:
+                if v.what.startswith(("numpy.", "math.")) and v.what not in _NOT_FUNCS:
+                    return FnRef(v.what)
+                if v.what == e.id and e.id in self.mod.funcs and self.se.repo.has(self.mod.name + "." + e.id):
+                    return FnRef(self.mod.name + "." + e.id)
+            return v
+        if isinstance(e, ast.Attribute):
+            d = dotted_name(e)
+            if d and not self._shadowed(d.split(".")[0]) and norm(e) not in self.vars and norm(e) not in self.flags:
+                full = self.se.repo.resolve_name(self.mod, d)
+                if full != d and full not in _NOT_FUNCS and (full.startswith(("numpy.", "math.")) or self.se.repo.has(full)):
+                    try:
+                        return symx.Env.ev(self, e, stmt_level)
+                    except symx.Unsupported:
+                        return FnRef(full)
+        return symx.Env.ev(self, e, stmt_level)
+
+    def _callee_expr(self, full):
+        """an expression that names the function `full` in this module, or None"""
+        cands = []
+        if full.startswith(self.mod.name + ".") and full[len(self.mod.name) + 1:] in self.mod.funcs:
+            cands.append(full[len(self.mod.name) + 1:])
+        for alias, tgt in sorted(self.mod.imports.items()):
+            if full == tgt:
+                cands.append(alias)
+            elif full.startswith(tgt + "."):
+                cands.append(alias + full[len(tgt):])
+        for dn in cands:
+            parts = dn.split(".")
+            if self._shadowed(parts[0]) or self.se.repo.resolve_name(self.mod, dn) != full:
+                continue
+            node = ast.Name(id=parts[0], ctx=ast.Load())
+            for p in parts[1:]:
+                node = ast.Attribute(value=node, attr=p, ctx=ast.Load())
+            return node
+        return None
+
+    # ---- tests ---------------------------------------------------------------------------------------------------------------
+    def truth(self, t):
+        if isinstance(t, ast.Call) and not t.keywords:
+            recv = None
+            if isinstance(t.func, ast.Attribute) and t.func.attr == "all" and not t.args:
+                recv = t.func.value
+            elif len(t.args) == 1 and call_name(t) == "all":
+                d = dotted_name(t.func)
+                if d and not self._shadowed(d.split(".")[0]) and self.se.repo.resolve_name(self.mod, d) == "numpy.all":
+                    recv = t.args[0]
+            if recv is not None and isinstance(recv, (ast.Name, ast.Compare, ast.BinOp)):
+                try:
+                    v = self.ev(recv)
+                except symx.Unsupported:
+                    v = None
+                if isinstance(v, symx.Mask):
+                    self.se._alls = getattr(self.se, "_alls", 0) + 1
+                    return sp.And(v.cond, sp.Symbol("ALL_OTHER_ELEMENTS_%d" % self.se._alls))
+        return symx.Env.truth(self, t)
+
+    # ---- calls ---------------------------------------------------------------------------------------------------------------
+    def _axis0(self, c, pos):
+        ax = kwarg(c, "axis") or (c.args[pos] if len(c.args) > pos else None)
+        return isinstance(ax, ast.Constant) and ax.value == 0 and not isinstance(ax.value, bool)
+
+    @staticmethod
+    def _components(x):
+        return isinstance(x, (tuple, list)) and len(x) > 0 and all(symx._is_expr(y) for y in x)
+
+    def call(self, c, stmt_level=False):
+        f = c.func
+        nm = call_name(c)
+        d = dotted_name(f)
+        # a function value: held in a variable, or looked up in a table at the call
+        fv = None
+        if isinstance(f, ast.Name) and isinstance(self.vars.get(f.id), FnRef) and f.id not in self.pins:
+            fv = self.vars[f.id]
+        elif isinstance(f, ast.Subscript) or (isinstance(f, ast.Call) and call_name(f) == "get"):
+            fv = self.ev(f)
+            if not isinstance(fv, FnRef):
+                raise symx.Unsupported("symx: call `%s` at %s" % (norm(c)[:60], self.where(c)))
+        if fv is not None:
+            node = self._callee_expr(fv.what)
+            if node is None:
+                raise symx.Unsupported("symx: call of `%s` through a variable: no name for it in this module, at %s" % (fv.what, self.where(c)))
+            c2 = ast.copy_location(ast.Call(func=ast.copy_location(node, f), args=c.args, keywords=c.keywords), c)
+            ast.fix_missing_locations(c2)
+            return self.call(c2, stmt_level)
+        full = self.se.repo.resolve_name(self.mod, d) if d and not self._shadowed(d.split(".")[0]) else ""
+        starred = any(isinstance(a, ast.Starred) for a in c.args)
+        if full.startswith("numpy.") and not starred:
+            if full in ("numpy.nonzero", "numpy.flatnonzero") and len(c.args) == 1 and not c.keywords:
+                m = self.ev(c.args[0])
+                return m if isinstance(m, symx.Mask) else symx.Opaque(full)
+            if full in ("numpy.stack", "numpy.vstack") and len(c.args) == 1 and isinstance(c.args[0], (ast.Tuple, ast.List)) \
+                    and (not c.keywords or (full == "numpy.stack" and len(c.keywords) == 1 and self._axis0(c, 1))):
+                x = self.ev(c.args[0])
+                return tuple(x) if self._components(x) else symx.Opaque(full)
+            if full == "numpy.sum" and c.args and self._axis0(c, 1) and len(c.args) + len(c.keywords) == 2:
+                x = self.ev(c.args[0])
+                if self._components(x):
+                    return sp.Add(*[symx._as_expr(y) for y in x])
+                return sp.Function("SUM")(symx._as_expr(x))
+            if full == "numpy.linalg.norm" and c.args and self._axis0(c, 2) and len(c.args) + len(c.keywords) == 2 and kwarg(c, "axis") is not None:
+                x = self.ev(c.args[0])
+                if self._components(x):
+                    return sp.sqrt(sp.Add(*[symx._as_expr(y) ** 2 for y in x]))
+                return symx.Opaque(full)
+        if isinstance(f, ast.Attribute) and not full:
+            if nm == "nonzero" and not c.args and not c.keywords:
+                m = self.ev(f.value)
+                return m if isinstance(m, symx.Mask) else symx.Opaque("%s(...)" % norm(f))
+            if nm == "sum" and self._axis0(c, 0) and len(c.args) + len(c.keywords) == 1:
+                x = self.ev(f.value)
+                if self._components(x):
+                    return sp.Add(*[symx._as_expr(y) for y in x])
+                return sp.Function("SUM")(symx._as_expr(x)) if symx._is_expr(x) else symx.Opaque("%s(...)" % norm(f))
+        # package helper with *args
+        if full and self.se.repo.has(full) and not starred:
+            tgt = self.se.repo.func(full)
+            if tgt.node.args.vararg is not None and not tgt.cls and full not in self.se.opaque and tgt.qualname not in self.se.opaque \
+                    and self.depth < self.se.inline_depth:
+                return self._inline_varargs(tgt, c)
+        return symx.Env.call(self, c, stmt_level)
+
+    def _inline_varargs(self, tgt, c):
+        a = tgt.node.args
+        pos = [x.arg for x in a.posonlyargs + a.args]
+        va = a.vararg.arg
+        vals = [self.ev(x) for x in c.args]
+        bind = dict(zip(pos, vals))
+        extra_nodes, extra = c.args[len(pos):], vals[len(pos):]
+        bind[va] = list(extra)
+        for k in c.keywords:
+            if k.arg is None:
+                raise symx.Unsupported("symx: **kwargs in call of %s at %s" % (tgt.name, self.where(c)))
+            bind[k.arg] = self.ev(k.value)
+        # the elements of *args are the caller's arrays: an update through the loop variable is taken as an update in place, which it
+        # is not when the loop variable is simply re-bound
+        loopvars = {st.target.id for st in ast.walk(tgt.node) if isinstance(st, ast.For) and isinstance(st.target, ast.Name)
+                    and isinstance(st.iter, ast.Name) and st.iter.id == va}
+        def bound(t):
+            if isinstance(t, ast.Name):
+                return {t.id}
+            if isinstance(t, (ast.Tuple, ast.List)):
+                return set().union(*[bound(x) for x in t.elts]) if t.elts else set()
+            if isinstance(t, ast.Starred):
+                return bound(t.value)
+            return set()
+        for st in ast.walk(tgt.node):
+            ts = st.targets if isinstance(st, ast.Assign) else ([st.target] if isinstance(st, (ast.AnnAssign, ast.NamedExpr)) else [])
+            for t in ts:
+                if bound(t) & (loopvars | {va}):
+                    raise symx.Unsupported("symx: %s re-binds an element of *%s at %s" % (tgt.name, va, tgt.where(st)))
+        env = type(self)(self.se, tgt, tgt.module, dict(bind), {}, depth=self.depth + 1)
+        for p in tgt.params:
+            pn = p.lstrip("*")
+            if pn not in env.vars:
+                if pn in tgt.defaults:
+                    env.vars[pn] = env.ev(tgt.defaults[pn])
+                elif p.startswith("**"):
+                    env.vars[pn] = {}
+        rets = env.exec_body(tgt.node.body, sp.true)
+        env.finish_returns(rets)
+        inplace = symx._inplace_params(tgt)
+        for p, an in zip(pos, c.args):
+            if isinstance(an, ast.Name) and p in env.vars and not symx._same(env.vars[p], bind.get(p)) and symx._is_expr(env.vars[p]) and p in inplace:
+                self.vars[an.id] = env.vars[p]
+        new = env.vars.get(va)
+        if not isinstance(new, list) or len(new) != len(extra):
+            raise symx.Unsupported("symx: %s re-binds *%s at %s" % (tgt.name, va, tgt.where()))
+        for an, old, nw in zip(extra_nodes, extra, new):
+            if symx._same(old, nw):
+                continue
+            if not (isinstance(an, ast.Name) and symx._is_expr(nw)):
+                raise symx.Unsupported("symx: in-place update of the argument `%s` by %s at %s" % (norm(an), tgt.name, self.where(c)))
+            self.assign(an, nw, c)
+        return env.result
+
+
+class SepEval(symx.SymEval):
+    def module_const(self, mod, name, depth=0):
+        v = symx.SymEval.module_const(self, mod, name, depth)
+        if v is None and name in mod.consts:
+            key = (mod.name, name)
+            own = self.__dict__.setdefault("_fn_consts", {})
+            if key not in own:
+                own[key] = None
+                # a table of functions ({"deg": np.deg2rad}); tables filled by later statements are left to the base evaluator
+                if isinstance(mod.consts[name], ast.Dict) and not any(
+                        isinstance(x, ast.Subscript) and isinstance(x.ctx, ast.Store) and norm(x.value) == name for x in ast.walk(mod.tree)):
+                    try:
+                        own[key] = SepEnv(self, None, mod, {}, {}).ev(mod.consts[name])
+                    except symx.Unsupported:
+                        own[key] = None
+            v = own[key]
+        return v
+
+    def run(self, fi, args, flags=None, depth=0, pins=None):
+        flags = dict(flags or {})
+        env = SepEnv(self, fi, fi.module, dict(args), flags, depth=depth)
+        env.pins = dict(pins or {})
+        for p in fi.params:
+            pn = p.lstrip("*")
+            if pn not in env.vars:
+                if pn in fi.defaults:
+                    env.vars[pn] = env.ev(fi.defaults[pn])
+                elif p.startswith("**"):
+                    env.vars[pn] = {}
+                elif p.startswith("*"):
+                    env.vars[pn] = ()
+        for k, v in flags.items():
+            if k in [p.lstrip("*") for p in fi.params]:
+                env.vars[k] = v
+        rets = env.exec_body(fi.node.body, sp.true)
+        env.finish_returns(rets)
+        self.last_env = env
+        return env.result
+
+
 def run(chk):
     repo = source_repo()
     chk.set_templates(repo, semantic=SEMANTIC)
     chk.explanation = MANIFEST["text"]
     chk.trusted = ["sympy normaliser", "numpy element-wise semantics", "CPython ast"]
     chk.floor = 30
-    se = symx.SymEval(repo, opaque={CO + "atbound", CO + "atbound2"})
+    se = SepEval(repo, opaque={CO + "atbound", CO + "atbound2"})
     ra1, dec1, ra2, dec2 = symx.symbols("ra1", "dec1", "ra2", "dec2")
     ra, dec = symx.symbols("ra", "dec")
 
@@ -436,6 +683,55 @@ def _pos(c, pol):
     return c if pol else sp.Not(c)
 
 
+def _implies_identity(c, syms):
+    """the condition is `ra1 == ra2 and dec1 == dec2 and <something more>`: it holds only for identical inputs, not for all of them"""
+    ra1, dec1, ra2, dec2 = syms
+    if not isinstance(c, sp.And) or len(c.args) < 3:
+        return False
+    hit = {0: False, 1: False}
+    for a in c.args:
+        if isinstance(a, sp.Eq):
+            d = sp.simplify(a.lhs - a.rhs)
+            for k, (x, y) in enumerate(((ra1, ra2), (dec1, dec2))):
+                q = sp.simplify(d / (x - y))
+                if q.is_number and q != 0:
+                    hit[k] = True
+    return hit[0] and hit[1]
+
+
+def drop_shortcuts(lv, syms):
+    """removes the fast paths for identical inputs from the decision list: a piece that is exactly 0 and is selected by a condition
+    that holds only for identical inputs (`if same.all(): return zeros`: this pair is identical and so are all the others).  Such a
+    piece agrees with the exact-zero override wherever it applies, and it does not apply to every identical pair, so the override is
+    still demanded of the remaining list (R08.3); with it, the remaining list gives the same value (0) where the fast path applied."""
+    short = [path[-1][0] for v, path in lv if v == 0 and path and path[-1][1] and _implies_identity(path[-1][0], syms)]
+    if not short:
+        return lv
+    out = []
+    for v, path in lv:
+        if v == 0 and path and path[-1][1] and path[-1][0] in short:
+            continue
+        out.append((v, tuple((c, pol) for c, pol in path if not (not pol and c in short))))
+    return out
+
+
+def _as_clip(e):
+    """CLIP(x, lo, hi) for the equivalent spellings of a two-sided clip: minimum(maximum(x, lo), hi) and maximum(minimum(x, hi), lo)
+    with numbers lo <= hi (this is how numpy defines clip); any other term is returned as it is"""
+    for outer, inner in ((sp.Min, sp.Max), (sp.Max, sp.Min)):
+        if isinstance(e, outer) and len(e.args) == 2:
+            num = [a for a in e.args if a.is_number]
+            rest = [a for a in e.args if not a.is_number]
+            if len(num) == 1 and len(rest) == 1 and isinstance(rest[0], inner) and len(rest[0].args) == 2:
+                num2 = [a for a in rest[0].args if a.is_number]
+                x = [a for a in rest[0].args if not a.is_number]
+                if len(num2) == 1 and len(x) == 1:
+                    lo, hi = (num2[0], num[0]) if outer is sp.Min else (num[0], num2[0])
+                    if lo.is_real and hi.is_real and lo <= hi:
+                        return sp.Function("CLIP")(x[0], lo, hi)
+    return e
+
+
 def split_identity(lv, syms):
     """(zero leaves guarded by the identical-inputs condition, is the first of them the top-priority leaf, the remaining leaves with the
     negated identity condition removed from their paths)"""
@@ -512,7 +808,7 @@ def check_chord(chk, fi, tag, r, syms, uin, uout):
     # exact-zero override: a leaf that is exactly 0 (in the output unit: 0 times the unit factor is 0) selected by `ra1 == ra2 and
     # dec1 == dec2`, and no other piece takes priority over it.  Whether the zero is stored before or after the unit conversion, with
     # a boolean mask or an index array, does not matter.
-    zero, rest = split_identity(lv, syms)
+    zero, rest = split_identity(drop_shortcuts(lv, syms), syms)
     chk.ob("R08.3", tag + "::exact-zero-for-identical-inputs", len(zero) >= 1, fi.where(),
            "identical inputs give exactly 0 (override piece: %s)" % (zero[0][2][-1][0] if zero else "MISSING"))
     if zero:
@@ -599,13 +895,15 @@ def check_cosine(chk, fi, r, syms):
     if not lv:
         chk.ob("R08.4", tag + "::law-of-cosines", None, fi.where(), "the result of the symbolic evaluation is not a term: %r" % (r,))
         return
-    zero, rest = split_identity(lv, syms)
+    zero, rest = split_identity(drop_shortcuts(lv, syms), syms)
     ok = len(zero) >= 1 and _has_priority(zero[0], syms)
     chk.ob("R08.3", tag + "::exact-zero-for-identical-inputs", ok, fi.where(), "identical inputs give exactly 0 (override piece: %s)" % (zero[0][2][-1][0] if zero else "MISSING"))
     if len(rest) != 1 or rest[0][1]:
         chk.ob("R08.4", tag + "::law-of-cosines", None, fi.where(), "unexpected structure %s" % str(r)[:200])
         return
     body = rest[0][0]
+    if isinstance(body, sp.acos):
+        body = sp.acos(_as_clip(body.args[0]), evaluate=False)
     d2r = sp.pi / 180
     cosd = sp.sin(dec1 * d2r) * sp.sin(dec2 * d2r) + sp.cos(dec1 * d2r) * sp.cos(dec2 * d2r) * sp.cos((ra2 - ra1) * d2r)
     CL = sp.Function("CLIP")
